@@ -9,7 +9,8 @@ META = {
 }
 GROUP = "exec"
 REQ = ("From RV Require Import Prelude.\nFrom Planner Require Import Graph.\n"
-       "From Exec Require Import ExecModel ModelTestOps PartialModel.\nOpen Scope N_scope.")
+       "From Exec Require Import ExecModel ModelTestOps PartialModel.\nOpen Scope N_scope.\n"
+       "Notation case := case4 (only parsing).")
 THEOREMS = []
 
 
